@@ -25,6 +25,7 @@ type Dgram struct {
 	Copy  int          // 0 = first delivery, >0 = duplicate / replay / reflection
 	Cause *Dgram       // step mode: the delivery this transmission reacted to
 	Tag   string       // free for scenarios (attacker label, ...)
+	SrcEP *Endpoint    // the endpoint that made the transmission (nil for attacker-made datagrams)
 }
 
 func (d *Dgram) clone() *Dgram {
@@ -535,6 +536,9 @@ type Endpoint struct {
 
 	// LastFrom is the source of the last datagram read (harness use only).
 	Name string
+	// WriteStall, when set before traffic starts, is asked after every transmission how long the writing
+	// goroutine is held up inside the socket write (fault: blocking send).
+	WriteStall func() time.Duration
 }
 
 // Addr builds a simulated address.
@@ -618,10 +622,17 @@ func (ep *Endpoint) WriteMsgUDP(b, oob []byte, addr *net.UDPAddr) (int, int, err
 		return 0, 0, &net.OpError{Op: "write", Net: "udp", Err: errors.New("destination address required")}
 	}
 	dst := *addr
-	d := &Dgram{Src: ep.addr.Load(), Dst: &dst, Data: append([]byte(nil), b...), SentAt: ep.n.r.Now()}
+	d := &Dgram{Src: ep.addr.Load(), Dst: &dst, Data: append([]byte(nil), b...), SentAt: ep.n.r.Now(), SrcEP: ep}
 	select {
 	case ep.n.out <- d:
 	case <-ep.n.stop:
+	}
+	// a socket write that blocks (full send buffer, stalled interface): the datagram is on its way with
+	// the destination it was given, the caller is held up
+	if ep.WriteStall != nil {
+		if dly := ep.WriteStall(); dly > 0 {
+			time.Sleep(dly)
+		}
 	}
 	return len(b), 0, nil
 }
